@@ -455,5 +455,6 @@ func c08R3(p *engine.Prog, r *engine.Report, af *ssa.Function) {
 	// ---------------- R6: while a fork is validated the validator view follows the fork; the stored diffs follow the adopted branch
 	appStateRefreshRule(p, r, "C08-R6", map[string]bool{"AppState.FinalizePrecommit": true})
 	insertBlockStoresDiffRule(p, r, "C08-R6")
+	subChainOnCheckStateRule(p, r, "C08-R6")
 	r.Floor("C08-R6", 3, "FinalizePrecommit, Precommit, insertBlock")
 }
